@@ -42,6 +42,9 @@ INST_CAT = [None, True, 0, 3, -4, 2.5, 1e308, 10 ** 30, "", "ab", [], [1, 2], [[
             "2020-01-01", "1.2.3.4", "a@b", "::1", "12:00:00", "(", "\u00e9.example"]
 
 
+INST_CAT_NOFLOAT = [x for x in INST_CAT if not isinstance(x, float)]
+
+
 def concrete_instance_needed(k, kind):
     return kind == "float" or k in ("multipleOf", "divisibleBy")
 
@@ -161,7 +164,7 @@ def single(d, k, kind, position="root", eps="core", exclude=(), small_cat=False)
     cat = concrete_instance_needed(k, kind) or eps != "core"
 
     def pre(v, x):
-        if cat and not (0 <= x < len(INST_CAT)):
+        if cat and not (0 <= x < len(INST_CAT_NOFLOAT if kind == "int" else INST_CAT)):
             return False
         if "F10" in exclude and kind == "refstr" and v == REFS.index(NON_SCHEMA_REF):
             return False
@@ -175,7 +178,7 @@ def single(d, k, kind, position="root", eps="core", exclude=(), small_cat=False)
         return small(x, 1, 1) if small_cat else small(x, 2, 2)
 
     def body(v, x):
-        return True, run_entry_points(d, schema_of(v), pick(INST_CAT, x) if cat else x, ep_list)
+        return True, run_entry_points(d, schema_of(v), pick(INST_CAT_NOFLOAT if kind == "int" else INST_CAT, x) if cat else x, ep_list)
 
     return Spec([("v", vtype(kind)), ("x", int if cat else INSTANCE)], pre, body, tags=[])
 
@@ -207,7 +210,7 @@ def pairf(d, k1, kind1, k2, kind2, small_cat=False):
     cat = concrete_instance_needed(k1, kind1) or concrete_instance_needed(k2, kind2)
 
     def pre(v1, v2, x):
-        if cat and not (0 <= x < len(INST_CAT)):
+        if cat and not (0 <= x < len(INST_CAT_NOFLOAT if "int" in (kind1, kind2) else INST_CAT)):
             return False
         if not (small(v1, 2, 2, 2) and small(v2, 2, 2, 2) and vok(d, kind1, v1) and vok(d, kind2, v2)):
             return False
@@ -219,7 +222,7 @@ def pairf(d, k1, kind1, k2, kind2, small_cat=False):
 
     def body(v1, v2, x):
         schema = {k1: vof(d, kind1, v1), k2: vof(d, kind2, v2)}
-        return True, run_entry_points(d, schema, pick(INST_CAT, x) if cat else x, EPS_CORE)
+        return True, run_entry_points(d, schema, pick(INST_CAT_NOFLOAT if "int" in (kind1, kind2) else INST_CAT, x) if cat else x, EPS_CORE)
 
     return Spec([("v1", vtype(kind1)), ("v2", vtype(kind2)), ("x", int if cat else INSTANCE)], pre, body, tags=[])
 
@@ -261,10 +264,10 @@ def conditions(tier, seed, active):
                             timeout=1800, tags=[], witness=[]))
         for k in cand.keywords(d):
             for kind in kinds_for(d, k):
-                if quick and rng.random() < (0.5 if kind in CHEAP_KINDS else 0.8):
+                if quick and rng.random() < (0.55 if kind in CHEAP_KINDS else 0.93):
                     continue
                 c("kw/%s/%s/d%d" % (k, kind, d), "single", dict(d=d, k=k, kind=kind))
-                if rng.random() < (0.03 if quick else 0.1):
+                if rng.random() < (0.015 if quick else 0.1):
                     c("kw-all-entry-points/%s/%s/d%d" % (k, kind, d), "single", dict(d=d, k=k, kind=kind, eps="all"), timeout=1800)
             if not quick:
                 for pos in rng.sample(["in_properties", "in_items_tuple", "in_not_or_extends"], 2):
@@ -280,7 +283,7 @@ def conditions(tier, seed, active):
                         continue
                     if d == 3 and k1 == "type" and a in ("str", "arr_str"):
                         continue
-                    if quick and (a not in CHEAP_KINDS or b not in CHEAP_KINDS or rng.random() < 0.5):
+                    if quick and (a not in CHEAP_KINDS or b not in CHEAP_KINDS or rng.random() < 0.65):
                         continue
                     if not quick and (a not in CHEAP_KINDS or b not in CHEAP_KINDS) and rng.random() < 0.7:
                         continue
